@@ -49,7 +49,7 @@ def stepSlow (st : St) (ev : PRV.Model.SchedSlow.Ev) : St × List String :=
 
 def step (st : St) : List String → St × List String
   | ["init"] => let r := init "primary"; ({ st with s := r.1 }, withCount r.1 r.2)
-  | ["add", cid, job, dl] => stepEv st (.add cid (cid ++ "dest") (parseInt job) (parseInt dl))
+  | ["add", cid, job, dl] => stepEv st (.add cid (if cid = "primary" then "primary" else cid ++ "dest") (parseInt job) (parseInt dl))
   | ["remove", cid] => stepEv st (.remove cid)
   | ["share", d] => stepEv st (.share (parseInt d))
   | ["tick", t] => stepEv st (.tick (parseInt t))
@@ -62,6 +62,9 @@ def step (st : St) : List String → St × List String
   | ["stick", t] => stepSlow st (.tick (parseInt t))
   | ["srelease"] => stepSlow st .release
   | ["sexit"] => stepSlow st .proxyExit
+  -- the end of a history (printed by the harness only when the scheduler did not return): the model always returns
+  | ["end"] => (st, [])
+  | ["send"] => (st, [])
   -- raw TaskList
   | ["tladd", cid] =>
     if st.tlDead then (st, []) else
